@@ -112,7 +112,10 @@ def coef_tolerance(sc, ph, fit):
             continue
         xc, yc = impl.quiet(ve.calculate_circle_center, [frame.vertices[i] for i in ids], method=fit)
         R = float(np.hypot(P[0, 0] - xc, P[0, 1] - yc))
-        tol = max(tol, 1e-6 * max(1.0, R / L / 10.0, float(np.max(np.abs(P))) / L / 100.0))
+        far = float(np.max(np.abs(P))) / L
+        # far from the origin the iterative dlite fit loses digits to cancellation (measured 1e-3 at 1e3 tissue sizes); the algebraic
+        # taubinSVD fit centres its data and stays at about 1.5e-14 per unit of |coords| (measured up to 1e6 tissue sizes)
+        tol = max(tol, 1e-6 * max(1.0, R / L / 10.0, far / 100.0 if fit == "dlite" else 0.0) + (0.0 if fit == "dlite" else 1e-13 * far))
     return tol
 
 
@@ -143,3 +146,30 @@ def unconverged_fits(frame, used, fit):
         if float(np.max(np.abs(rc - rc.mean()))) > 1e-5 * L:
             bad.add(col)
     return bad
+
+
+def d2_active(frame, fit):
+    """finding D2 at work somewhere in this pose: a junction vertex at which the coded versor of some incident interface (internal
+    or not, three or more points) differs from the tangent of the code's own fitted circle oriented along the first chord"""
+    out = set()
+    ends = {int(be.vertices[0].id) for be in frame.internal_big_edges} | {int(be.vertices[-1].id) for be in frame.internal_big_edges}
+    for v in ends:
+        for i in frame.vertices[v].own_big_edges:
+            be = frame.big_edges[i]
+            ids = [int(x.id) for x in be.vertices]
+            if len(ids) < 3 or v not in (ids[0], ids[-1]):
+                continue
+            try:
+                got = np.asarray(impl.quiet(be.get_versor_from_vertex, v, fit_method=fit), dtype=float)
+                xc, yc = impl.quiet(ve.calculate_circle_center, be.vertices, method=fit)
+            except Exception:
+                continue
+            p0 = frame.vertices[v]
+            nxt = frame.vertices[ids[1] if ids[0] == v else ids[-2]]
+            t = np.array([-(p0.y - yc), (p0.x - xc)], dtype=float)
+            if t @ np.array([nxt.x - p0.x, nxt.y - p0.y]) < 0:
+                t = -t
+            t = t / np.linalg.norm(t)
+            if float(np.max(np.abs(t - got))) > 1e-9:
+                out.add(v)
+    return out
